@@ -194,6 +194,9 @@ def apply_contract(I, c, qn, args, kwargs, fr, site, finfo=None):
         for n, v in zip(names, args):
             env[n] = v
         env.update(kwargs)
+        for n, dflt in (c.get("defaults") or {}).items():
+            if n not in env:
+                env[n] = I.E.eval_spec_in(I, dflt, spec_frame(I, None, {}, None, module=c.get("module"), cls=c.get("cls")))
     snap = st.snapshot()
     sf = spec_frame(I, finfo, env, snap, module=c.get("module"), cls=c.get("cls"))
     sf.old_ghost = dict(st.ghost)
@@ -256,7 +259,10 @@ def apply_contract(I, c, qn, args, kwargs, fr, site, finfo=None):
                 chosen = vals
                 break
     # havoc
+    definitional = set(chosen["post"].keys()) if chosen is not None else set()
     for m in c.get("modifies") or []:
+        if m in definitional:
+            continue        # assigned below by the chosen behaviour: a havoc first would only fork on optional types
         havoc_lvalue(I, m, sf)
     if out == "normal":
         rt = c.get("returns", "none")
@@ -390,7 +396,7 @@ def havoc_lvalue(I, expr, sf):
     if ty is None:
         raise Unsupported("modifies %s: undeclared field" % expr)
     if name not in o.init and name not in o.fields:
-        o.init[name] = I.fresh_of_type(ty, "%s.%s" % (I.obj_hint(base), name))
+        o.init[name] = I.init_value(ty, "%s.%s" % (I.obj_hint(base), name))
     o.fields[name] = I.fresh_of_type(ty, "%s.%s!post" % (I.obj_hint(base), name))
 
 
@@ -597,10 +603,24 @@ def _sorted(I, self, args, kw, fr, site):
         st.heap[r.ref].hint = "sorted_keys"
         return r
     items = I.iter_concrete(v)
+    if len(items) <= 1:
+        # nothing to order
+        r = st.alloc("list", "list")
+        st.heap[r.ref].data = list(items)
+        return r
     keys = []
     for x in items:
-        h = I.hashable(x)
+        try:
+            h = I.hashable(x)
+        except Unsupported:
+            # tuples (k, v) with concrete, pairwise distinct first components sort by those alone
+            if isinstance(x, VTuple) and x.items:
+                h = (I.hashable(x.items[0]),)
+            else:
+                raise
         keys.append((h, x))
+    if len(set(k for k, _ in keys)) != len(keys):
+        raise Unsupported("sorted(): keys not pairwise distinct and concrete")
     keys.sort(key=lambda p: p[0])
     r = st.alloc("list", "list")
     st.heap[r.ref].data = [x for _, x in keys]
@@ -628,10 +648,23 @@ def _getattr(I, self, args, kw, fr, site):
 def _hasattr(I, self, args, kw, fr, site):
     name = ropes.conc_value(args[1])
     try:
-        I.get_attr(args[0], name, fr, site)
+        v = I.get_attr(args[0], name, fr, site)
+        if isinstance(v, VNone) and isinstance(args[0], VRef) and I.st.heap[args[0].ref].kind == "obj":
+            ty = I.E.field_type(I.st.heap[args[0].ref].cls, name)
+            if ty and ty.startswith("maybe["):
+                return VBool(False)      # declared "maybe[...]": None stands for "attribute absent"
         return VBool(True)
     except PyExc:
         return VBool(False)
+
+
+@intrinsic("builtins.setattr")
+def _setattr(I, self, args, kw, fr, site):
+    name = ropes.conc_value(args[1])
+    if name is None:
+        raise Unsupported("setattr with symbolic name")
+    I.set_attr(args[0], name, args[2], fr)
+    return NONE
 
 
 @intrinsic("builtins.list", "builtins.tuple")
@@ -848,16 +881,17 @@ def _startswith(I, self, args, kw, fr, site):
     st = I.st
     p = args[0]
     c, cp = ropes.conc_value(self), ropes.conc_value(p)
-    raise_if = None
+    ends = "call(endswith)" in site
     if c is not None and cp is not None:
-        return VBool(c.startswith(cp))
+        return VBool(c.endswith(cp) if ends else c.startswith(cp))
     n, m = ropes.seq_len(self), ropes.seq_len(p)
     cond = zint(m) <= zint(n)
     if is_conc(m) and st.proves(cond):
-        head = ropes.slice_norm(st, self, 0, m)
+        head = ropes.slice_norm(st, self, simp(zint(n) - m), n) if ends else ropes.slice_norm(st, self, 0, m)
         return VBool(ropes.seq_eq(st, head, p))
-    b = st.fresh_bool("startswith")
-    return VBool(b)
+    # deterministic (uninterpreted) predicate of the two values
+    f = z3.Function("uf_endswith" if ends else "uf_startswith", smt.Seq, smt.Seq, smt.Bool)
+    return VBool(f(ropes.seq_term(st, self), ropes.seq_term(st, p)))
 
 
 @intrinsic("str.format", "str.join", "str.lower", "str.upper", "str.strip", "str.replace", "bytes.hex",
